@@ -17,6 +17,11 @@ def use_repo():
     if p not in sys.path:
         sys.path.insert(0, p)
     os.environ["BOB_VERIF"] = "1"
+    # never silently test another tree: `bob` is also importable through the venv's .pth entry
+    import bob
+    got = os.path.realpath(os.path.dirname(os.path.dirname(bob.__file__)))
+    if got != os.path.realpath(p):
+        raise RuntimeError("bob imported from %s instead of %s (scratch copy vanished?)" % (got, p))
     return p
 
 
